@@ -214,6 +214,25 @@ def _():
     return ufl.as_vector([f * g, f.dx(1)]), SEG
 
 
+@ereg("dropped_coefficient_before_survivor", "q")
+def _():
+    m = mesh("triangle")
+    k0 = ufl.Coefficient(space(m, "DG", 0))
+    g = ufl.Coefficient(space(m))
+    h = ufl.Coefficient(space(m, deg=2))
+    x = ufl.SpatialCoordinate(m)
+    return g * (x[0] ** 2 + k0).dx(0) + h * ufl.grad(k0)[1] + h, TRI[:2]
+
+
+@ereg("rank3_constant_expression", "q")
+def _():
+    m = mesh("triangle")
+    f = ufl.Coefficient(space(m))
+    K = ufl.Constant(m, shape=(2, 2, 3))
+    s = ufl.Constant(m)
+    return ufl.as_vector([K[1, 0, 2] * f + s, K[0, 1, 1], K[1, 1, 0] * f]), TRI[:2]
+
+
 def lower_expression(expr, complex_mode=False):
     """The documented preprocessing sequence for expressions (written from UFL's API)."""
     pg = (uc.Jacobian,)
@@ -341,6 +360,19 @@ def _expr(name, spec, res):
         inp = uflref.Inputs(ctx, nw, nc, nx, cm)
         kr = ksym.run_kernel(kern, ctx, inp, nA, entities=ents, perms=perm)
         res["kernels"] += 1
+        oob = [e for e in kr.interp.events if e.kind in ("oob_read", "oob_write") and e.array in ("A", "w", "c", "coordinate_dofs")]
+        if oob:
+            # the kernel leaves the extents the descriptor implies: confirm with ASan on exact-size buffers
+            from .kernelprops import asan_run
+
+            ext = {"A": nA, "w": nw, "c": nc, "coordinate_dofs": nx, "entity_local_index": 1 if edim < tdim else 0, "quadrature_permutation": 1 if edim < tdim else 0}
+            failed, log = asan_run(c, kern, ext, ents, perm)
+            if failed:
+                res["violations"].append({"key": f"{name}:out-of-bounds:{oob[0].array}", "what": f"expression kernel accesses {oob[0].array}{oob[0].index} but the descriptor implies {len(getattr(inp, 'W', [])) if oob[0].array == 'w' else oob[0].extent} entries (num_coefficients/positions vs kernel offsets disagree); confirmed by ASan",
+                                          "replay": None})
+            else:
+                res["inconclusive"].append(f"{name}: executor saw {oob[0]} but the sanitizer run is clean")
+            continue
         ev = uflref.Evaluator(ctx, inp, itype="expression", cellname=cellname, coord_element=cel, arg_elements=arg_elements,
                               coefficients=coeffs, coeff_elements=coeff_elements, constants=consts, entities=ents, complex_mode=cm)
         epts = pts
